@@ -157,6 +157,15 @@ impl FromStr for NetworkAddress {
             return Ok(Self::new(socket_addr));
         }
 
+        // Our own `Display` rendering: "<socket address> (<four words>)". The socket
+        // address is authoritative; the words are derived from it.
+        if let Some((head, tail)) = s.split_once(" (")
+            && tail.ends_with(')')
+            && let Ok(socket_addr) = SocketAddr::from_str(head)
+        {
+            return Ok(Self::new(socket_addr));
+        }
+
         // Basic Multiaddr support: /ip4/<ip>/tcp/<port> or /ip6/<ip>/tcp/<port>
         if s.starts_with("/ip4/") || s.starts_with("/ip6/") {
             let parts: Vec<&str> = s.split('/').filter(|p| !p.is_empty()).collect();
